@@ -120,9 +120,9 @@ Section P5.
     Variable cf : cfg.
     Notation dstate := (dstate V).
     Notation fdict := (dict_filter V falsy cf).
-    Notation pre := (dict_pre V).
-    Notation skip := (as_instance V).
-    Notation post := (dict_post V).
+    Notation pre := (dict_pre V cf).
+    Notation skip := (as_instance V cf).
+    Notation post := (dict_post V cf).
     Notation dnode := (tnode V dstate (dict_prior V cf) fdict pre skip post).
     Notation dchildren := (tchildren V dstate (dict_prior V cf) fdict pre skip post).
     Notation image := (fun f => pmap f fdict skip post).
